@@ -150,9 +150,12 @@ pub struct SimStats {
 pub trait ByteLayer {
   fn push_kbd(&mut self, e: &Event, tape: &mut Tape);
   fn push_tab(&mut self, on: bool, tape: &mut Tape);
-  /// read one keyboard event through the real reader; None = EAGAIN
+  /// read one keyboard event through the real driver; None = Busy (EAGAIN)
   fn read_kbd(&mut self) -> Result<Option<Event>, String>;
   fn read_tab(&mut self) -> Result<Option<bool>, String>;
+  /// the real driver's own answers, unfiltered (used right after an injected OS-level read failure)
+  fn raw_next_keyboard(&mut self) -> Result<VNext<Event>, String>;
+  fn raw_next_tablet(&mut self) -> Result<VNext<bool>, String>;
   /// write through the real writer, drain and decode what arrived on the other end
   fn send(&mut self, evs: &Vec<Event>) -> Result<Vec<Event>, String>;
   /// make the next OS-level write of the real writer fail (0 EAGAIN, 1 EPIPE, 2 EBADF)
@@ -388,10 +391,9 @@ impl<'a> VerifDriver for Sim<'a> {
         b.sabotage_reader(false);
         self.hw_failed = true; self.stats.os_read_fault += 1; self.stats.io_error += 1;
         self.trace.push(Item::Fail { what: "next_keyboard (OS-level read failure under the real driver)" });
-        return match b.read_kbd() {
+        return match b.raw_next_keyboard() {
           Err(e) => Err(format!("{}: {}", INJECTED, e)),
-          Ok(Some(e)) => Ok(VNext::One(e)),   // the failure was swallowed
-          Ok(None) => Ok(VNext::Busy),
+          Ok(other) => Ok(other),   // the failure was swallowed or turned into Busy/End
         };
       }
     }
@@ -429,10 +431,9 @@ impl<'a> VerifDriver for Sim<'a> {
         b.sabotage_reader(true);
         self.hw_failed = true; self.stats.os_read_fault += 1; self.stats.io_error += 1;
         self.trace.push(Item::Fail { what: "next_tablet (OS-level read failure under the real driver)" });
-        return match b.read_tab() {
+        return match b.raw_next_tablet() {
           Err(e) => Err(format!("{}: {}", INJECTED, e)),
-          Ok(Some(on)) => Ok(VNext::One(on)),
-          Ok(None) => Ok(VNext::Busy),
+          Ok(other) => Ok(other),
         };
       }
     }
@@ -499,15 +500,15 @@ impl<'a> VerifDriver for Sim<'a> {
 // disagreement that belongs to another property the model adopts what the loop did and goes on.
 
 #[derive(Clone, Copy, Default, Debug)]
-pub struct EnB { pub c10: bool, pub c11: bool, pub c12: bool, pub c19: bool, pub c20: bool, pub c18: bool }
+pub struct EnB { pub c10: bool, pub c11: bool, pub c12: bool, pub c19: bool, pub c20: bool, pub c18: bool, pub c06: bool }
 impl EnB {
   pub fn only(p: &str) -> EnB {
     let mut e = EnB::default();
-    match p { "C10" => e.c10 = true, "C11" => e.c11 = true, "C12" => e.c12 = true, "C19" => e.c19 = true, "C20" => e.c20 = true, "C18" => e.c18 = true, _ => {} }
+    match p { "C10" => e.c10 = true, "C11" => e.c11 = true, "C12" => e.c12 = true, "C19" => e.c19 = true, "C20" => e.c20 = true, "C18" => e.c18 = true, "C06" => e.c06 = true, _ => {} }
     e
   }
   fn on(&self, label: &str) -> bool {
-    match &label[..3] { "C10" => self.c10, "C11" => self.c11, "C12" => self.c12, "C19" => self.c19, "C20" => self.c20, "C18" => self.c18, _ => false }
+    match &label[..3] { "C10" => self.c10, "C11" => self.c11, "C12" => self.c12, "C19" => self.c19, "C20" => self.c20, "C18" => self.c18, "C06" => self.c06, _ => false }
   }
 }
 
@@ -568,7 +569,7 @@ pub fn check_trace(l: &Layout, trace: &[Item], result: &Result<(), String>, en: 
         match kind {
           Kind::Step => {
             report!("C10-missing-send", i, format!("the mapper's output {} was not written before {}", evs_str(&exp), item_str(it)));
-            if tablet_events > 0 { report!("C12-not-fresh", i, format!("after a tablet-mode change a freshly started mapper answers {}, the loop wrote nothing", evs_str(&exp))); }
+            if tablet_events > 0 { report!("C12-not-fresh", i, format!("after a tablet-mode change a freshly started mapper answers {}, the loop wrote nothing", evs_str(&exp))); report!("C06-loop-not-fresh", i, format!("after a tablet-mode change a freshly started mapper answers {}, the loop wrote nothing", evs_str(&exp))); }
           }
           Kind::Chord => report!("C11-missing-chord", i, format!("the timer fired but no repeat chord {} was written before {}", evs_str(&exp), item_str(it))),
           Kind::Tablet => report!("C12-missing-release", i, format!("tablet-mode change but the held keys were not released ({}) before {}", evs_str(&exp), item_str(it))),
@@ -668,7 +669,7 @@ pub fn check_trace(l: &Layout, trace: &[Item], result: &Result<(), String>, en: 
             if tablet { report!("C12-send-in-tablet", i, format!("wrote {} while in tablet mode", evs_str(evs))); }
             else if last_poll_timed_out { report!("C11-unexpected-chord", i, format!("wrote {} after a time-out although no repeat chord is due", evs_str(evs))); }
             else { report!("C10-unexpected-send", i, format!("wrote {} although the mapper produced nothing to write", evs_str(evs))); }
-            if !tablet && tablet_events > 0 { report!("C12-not-fresh", i, format!("after a tablet-mode change the loop wrote {} where a freshly started loop writes nothing", evs_str(evs))); }
+            if !tablet && tablet_events > 0 { report!("C12-not-fresh", i, format!("after a tablet-mode change the loop wrote {} where a freshly started loop writes nothing", evs_str(evs))); report!("C06-loop-not-fresh", i, format!("after a tablet-mode change the loop wrote {} where a freshly started loop writes nothing", evs_str(evs))); }
             Kind::Step
           }
           Some((exp, kind)) => {
@@ -684,7 +685,7 @@ pub fn check_trace(l: &Layout, trace: &[Item], result: &Result<(), String>, en: 
                 Kind::Tablet => report!("C12-release", i, format!("tablet-mode change: expected release batch {}, got {} (held {})", evs_str(&exp), evs_str(evs), keys_str(&held))),
                 Kind::Step => {
                   report!("C10-payload", i, format!("expected the mapper's output {}, the loop wrote {}", evs_str(&exp), evs_str(evs)));
-                  if tablet_events > 0 { report!("C12-not-fresh", i, format!("after a tablet-mode change a freshly started mapper answers {}, the loop wrote {}", evs_str(&exp), evs_str(evs))); }
+                  if tablet_events > 0 { report!("C12-not-fresh", i, format!("after a tablet-mode change a freshly started mapper answers {}, the loop wrote {}", evs_str(&exp), evs_str(evs))); report!("C06-loop-not-fresh", i, format!("after a tablet-mode change a freshly started mapper answers {}, the loop wrote {}", evs_str(&exp), evs_str(evs))); }
                 }
               }
             }
